@@ -700,6 +700,7 @@ Definition step_event (s : sess) (e : event) : sess :=
   | EStop =>
       let s0 := upd_flags s (s_sent_reset s) (s_hb s) true (s_stopped s) in
       let '(s1, next) := state_stop (s_st s0) s0 in set_state s1 next
+  | EResetSeqTime => if is_connected (s_st s) then send_logon_in_reply_to s true None else s
   end.
 
 (* one observed step: the logs are cleared first, so `s_cbs`, `s_wire`, `s_closed` of the result belong to this event *)
